@@ -12,8 +12,11 @@ VARIABLES failed,    \* ids of records that may be missing: their own write fail
           active,    \* a file is open: a record of this run has been written by a call without any injected failure
           starts,    \* stream positions at which a logger was started (after a failed open the next start finds no current file)
           seenids,   \* ids seen on disk at the previous observation
-          clearId    \* number of accepted records when the failures ended (-1: not yet)
-fvars == <<bvars, failed, active, seenids, clearId, starts>>
+          clearId,   \* number of accepted records when the failures ended (-1: not yet)
+          remfail    \* a removal by the cleanup failed (fs:remove): the file it wanted to delete is still there, and
+                     \* a later cleanup - which deletes newest first among the files beyond the limit - may remove a NEWER
+                     \* file and fail again at this one: the stream then has a legitimate hole that is not at its beginning
+fvars == <<bvars, failed, active, seenids, clearId, starts, remfail>>
 
 Ids(s) == {s[j][1] : j \in 1..Len(s)}
 Errs(e) == SelectSeq(e.errs, LAMBDA x : x # "Palette")
@@ -22,8 +25,9 @@ Blocking(e) == \E j \in 1..Len(e.injp) : e.injp[j] \in {"fs:write", "fs:open", "
 
 Upd ==
     LET e == E IN
-    IF e.ev = "Begin" THEN failed' = {} /\ seenids' = {} /\ clearId' = -1 /\ active' = FALSE /\ starts' = {}
-    ELSE /\ starts' = IF e.ev = "Start" THEN starts \cup {Len(acc)} ELSE starts
+    IF e.ev = "Begin" THEN failed' = {} /\ seenids' = {} /\ clearId' = -1 /\ active' = FALSE /\ starts' = {} /\ remfail' = FALSE
+    ELSE /\ remfail' = (remfail \/ \E j \in 1..Len(e.injp) : e.injp[j] = "fs:remove")
+         /\ starts' = IF e.ev = "Start" THEN starts \cup {Len(acc)} ELSE starts
          /\ failed' = IF e.ev = "Log" /\ e.inj > 0 /\ (~active \/ \E j \in 1..Len(e.injp) : e.injp[j] = "fs:write")
                        THEN failed \cup {e.id} ELSE failed
          /\ active' = IF e.ev \in {"Start", "Stop", "Reset"} THEN FALSE
@@ -59,7 +63,14 @@ Check ==
            \* at the end: only records whose own log call saw a failure may be missing
            /\ IF SyncEv(e) /\ e.ev = "Stop"
               THEN LET must == SelectSeq(a, LAMBDA p : p[1] \notin failed \/ p[1] \in Ids(S)) IN
-                   /\ Chk(e, "MissingOnlyOwnFailure", IF cc.clean THEN IsSuffix(S, must) ELSE S = must)
+                   /\ Chk(e, "MissingOnlyOwnFailure",
+                          IF ~cc.clean THEN S = must
+                          ELSE IF ~remfail' THEN IsSuffix(S, must)
+                          \* (after a failed removal: every surviving record is one that must be there - order and
+                          \* uniqueness are checked above - and the newest record, which no cleanup touches, is there)
+                          ELSE /\ \A x \in 1..Len(S) : \E y \in 1..Len(must) : must[y] = S[x]
+                               /\ (Len(must) > 0 => (Len(S) > 0 /\ S[Len(S)] = must[Len(must)])))
+                   /\ Cnt(7, cc.clean /\ remfail')
                    /\ Cnt(3, Len(must) < Len(a)) /\ Cnt(4, failed # {})
                    \* once operations succeed again, rotation resumes: no record is appended to a file that
                    \* already exceeds the size limit (records logged at least two calls after the failures ended)
@@ -97,7 +108,7 @@ Check ==
                       ELSE TRUE
               ELSE TRUE
 
-Init == BaseInit /\ failed = {} /\ active = FALSE /\ seenids = {} /\ clearId = -1 /\ starts = {}
+Init == BaseInit /\ failed = {} /\ active = FALSE /\ seenids = {} /\ clearId = -1 /\ starts = {} /\ remfail = FALSE
 Next == BaseStep /\ Upd /\ Check /\ Finish
 Spec == Init /\ [][Next]_fvars
 =============================================================================
